@@ -9,7 +9,7 @@ export GOFLAGS=-mod=mod GOPROXY=off GOSUMDB=off GOTOOLCHAIN=local
 K=$$
 WT=/tmp/se-wt-$K; VF=/tmp/se-vf-$K
 # (every scratch worktree has its own path, so nothing compiled from it is ever reused: the build cache only grows — trim it)
-trim_cache() { local d; d=$(go env GOCACHE 2>/dev/null); [ -d "$d" ] || return 0; local g; g=$(du -s --block-size=1G "$d" 2>/dev/null | cut -f1); [ "${g:-0}" -gt 30 ] && go clean -cache 2>/dev/null; return 0; }
+trim_cache() { local d; d=$(go env GOCACHE 2>/dev/null); [ -d "$d" ] || return 0; local g; g=$(du -s --block-size=1G "$d" 2>/dev/null | cut -f1); [ "${g:-0}" -gt 60 ] && [ "$(pgrep -fc 'tools/scratch_eval.sh')" -le 1 ] && go clean -cache 2>/dev/null; return 0; }   # (never while another evaluation is building)
 trap 'git -C /repo worktree remove --force $WT 2>/dev/null; rm -rf $VF; trim_cache' EXIT
 git -C /repo worktree add -q --detach $WT ${BASE_REV:-HEAD} || exit 2
 if [ "$P" != none ] && ! git -C $WT apply "$P"; then echo "patch does not apply"; exit 2; fi
